@@ -478,6 +478,23 @@ func vfCheckStream(got, pre []byte, halTokens []string, insts []*vfInst) (string
 		}
 		pos += i + len(tk)
 	}
+	// attribution: a complete bring-up line speaks for one driver. A line that carries the name token of two
+	// different drivers attributes one driver's outcome to another (lines after an unterminated "partial-" message
+	// legitimately continue with the next driver's text and are exempt).
+	for _, line := range bytes.Split(hal, []byte("\n")) {
+		if bytes.Contains(line, []byte("partial-")) {
+			continue
+		}
+		named := map[string]bool{}
+		for _, in := range insts {
+			if tk := in.drv.DriverName() + "("; bytes.Contains(line, []byte(tk)) {
+				named[tk] = true
+			}
+		}
+		if len(named) > 1 {
+			return "bring-up-log-attribution", fmt.Sprintf("one bring-up line names %d different drivers: %q", len(named), vfTail(line))
+		}
+	}
 	for _, in := range insts {
 		for _, pfx := range []string{"hello-from-", "boom-", "partial-"} {
 			if n := bytes.Count(hal, []byte(pfx+in.name)); n > 1 {
